@@ -130,7 +130,9 @@ class ScriptPolicy:
 class ConnWorld:
     KEY = b"k" * 16
 
-    def __init__(self, mtu=None, start_seq=None, timeout=None, keepalive=None, tick_us=TICK_US):
+    def __init__(self, mtu=None, start_seq=None, timeout=None, keepalive=None, tick_us=TICK_US, cb_raise=0.0):
+        self.cb_raise = cb_raise          # probability that an application callback raises after it was told (a strict `assert ok`, a bug in the application)
+        self.cb_rnd = random.Random(12345)
         self.C = impl.mod("connection")
         C = self.C
         self.vt = VClock()
@@ -225,7 +227,27 @@ class ConnWorld:
         self.cur.update(cbs=[], acked=[], timedout=[], steps=[])
 
     def mkcb(self, pid):
-        return lambda ok: self.cur.setdefault("cbs", []).append(dict(pid=pid, val=bool(ok)))
+        world = self
+
+        def told(ok):
+            world.cur.setdefault("cbs", []).append(dict(pid=pid, val=bool(ok)))
+            if world.cb_raise and world.cb_rnd.random() < world.cb_raise:
+                raise AssertionError("application callback of payload %d raises" % pid)
+        if pid % 2:
+            return told
+
+        class SameCallable:
+            """every second send hands over a callable that COMPARES EQUAL to the others of its kind - as `self.on_sent` does when one bound method is
+            given to every send - while each still knows its own payload"""
+            def __call__(s, ok):
+                told(ok)
+
+            def __eq__(s, other):
+                return type(other).__name__ == "SameCallable"
+
+            def __hash__(s):
+                return 7
+        return SameCallable()
 
     def decode(self, raw):
         """Independent reader of a genuine datagram (the harness's own AES-GCM, not the library's)."""
